@@ -10,8 +10,8 @@ LEAN = Path(__file__).resolve().parent.parent / "lean"
 # property -> list of (module, [explicit theorem names] or None = every theorem in the file)
 SPEC = {
     "C01": [("MD.Props.C01", None), ("MD.Props.C01b", None), ("MD.Proofs.Unique", ["MD.C01_argmin_iff"]), ("MD.Proofs.MaxMin", ["MD.gpava_maxmin"]), ("MD.Proofs.Gpava", ["MD.gpava_spec"])],
-    "C02": [("MD.Props.C02", None), ("MD.Props.C02b", None), ("MD.Proofs.QuantStage", ["MD.pinball_flat", "MD.qLower_le_qUpper", "MD.C02_optimal_inc"])],
-    "C03": [("MD.Props.C03", None), ("MD.Proofs.ExpectileInst", ["MD.eSum_expectile", "MD.eSum_strictMono", "MD.expectile_le_iff"])],
+    "C02": [("MD.Props.C02", None), ("MD.Props.C02b", None), ("MD.Props.C03b", ["MD.Props.C02_array_lower_stage", "MD.Props.C03_array_program"]), ("MD.Proofs.QuantStage", ["MD.pinball_flat", "MD.qLower_le_qUpper", "MD.C02_optimal_inc"])],
+    "C03": [("MD.Props.C03", None), ("MD.Props.C03b", None), ("MD.Proofs.ExpectileInst", ["MD.eSum_expectile", "MD.eSum_strictMono", "MD.expectile_le_iff"])],
     "C04": [("MD.Props.C04_HES", None), ("MD.Props.C04_HQS", None)],
     "C05": [("MD.Props.C05", None)],
     "C06": [("MD.Props.C06", None), ("MD.Props.C06b", None)],
@@ -20,7 +20,7 @@ SPEC = {
     "C09": [("MD.Props.C09", None)],
     "C10": [("MD.Props.C10", None), ("MD.Props.C10b", None)],
     "C11": [("MD.Props.C11", None), ("MD.Props.C11b", None)],
-    "C12": [("MD.Props.C12", None), ("MD.Props.C12b", None), ("MD.Props.C01b", None)],
+    "C12": [("MD.Props.C12", None), ("MD.Props.C12b", None), ("MD.Props.C01b", None), ("MD.Props.C03b", None)],
     "C13": [("MD.Props.C13", None)],
     "C14": [("MD.Props.C14", None), ("MD.Props.C04_HES", "re:C14_"), ("MD.Props.C04_HQS", "re:C14_")],
     "C15": [("MD.Props.C15", None), ("MD.Proofs.ElemIntegral", None)],
